@@ -200,6 +200,11 @@ pub struct Outcome {
 }
 
 struct Ctx<'a> {
+	sc: &'a Scenario,
+	tr: &'a Trace,
+	found: Option<Vec<Option<u64>>>,
+	best_ticket_mismatch: Option<(Vec<Divergence>, Vec<Option<u64>>)>,
+	event_matches: u64,
 	obs: &'a [(u64, OEv)],
 	program: &'a [Step],
 	faults: &'a Faults,
@@ -655,7 +660,7 @@ impl M {
 
 fn explore(mut m: M, cx: &mut Ctx<'_>) {
 	cx.branches += 1;
-	if cx.branches > cx.limit || cx.matches.len() >= 32 {
+	if cx.branches > cx.limit || cx.found.is_some() {
 		return;
 	}
 	loop {
@@ -670,7 +675,14 @@ fn explore(mut m: M, cx: &mut Ctx<'_>) {
 				None => {
 					// quiescent: every observed event must have been consumed
 					if m.pos == cx.obs.len() {
-						cx.matches.push(m.done.clone());
+						// the event sequence matches on this branch: do the ticket instants match too?
+						cx.event_matches += 1;
+						let d = compare_tickets(cx.sc, cx.tr, &m.done);
+						if d.is_empty() {
+							cx.found = Some(m.done.clone());
+						} else if cx.best_ticket_mismatch.as_ref().map_or(true, |b| d.len() < b.0.len()) {
+							cx.best_ticket_mismatch = Some((d, m.done.clone()));
+						}
 					} else {
 						if m.pos > cx.best_pos {
 							cx.best_pos = m.pos;
@@ -844,6 +856,11 @@ pub fn check(sc: &Scenario, tr: &Trace) -> Outcome {
 		best_end_mismatch: None,
 		matches: vec![],
 		limit: 200_000,
+		sc,
+		tr,
+		found: None,
+		best_ticket_mismatch: None,
+		event_matches: 0,
 	};
 	let m = M {
 		now: 0,
@@ -873,11 +890,16 @@ pub fn check(sc: &Scenario, tr: &Trace) -> Outcome {
 	};
 	explore(m, &mut cx);
 	let mut out = Outcome { branches: cx.branches, ties: cx.ties, ..Default::default() };
+	if let Some(done) = cx.found {
+		out.conforms = true;
+		out.expected_done = done;
+		return out;
+	}
 	if cx.branches > cx.limit {
 		out.divergences.push(Divergence { sig: "model-search-limit".into(), what: "model search hit its branch limit".into(), family: "inconclusive" });
 		return out;
 	}
-	if cx.matches.is_empty() {
+	if cx.event_matches == 0 {
 		// event-level divergence
 		let (obs_desc, obs_kind) = match obs.get(cx.best_pos) {
 			Some((t, e)) => (format!("{e:?} at {t} ms"), e.kind()),
@@ -901,21 +923,11 @@ pub fn check(sc: &Scenario, tr: &Trace) -> Outcome {
 		});
 		return out;
 	}
-	// ticket completion instants
-	let mut best: Option<Vec<Divergence>> = None;
-	for done in &cx.matches {
-		let d = compare_tickets(sc, tr, done);
-		if d.is_empty() {
-			out.conforms = true;
-			out.expected_done = done.clone();
-			return out;
-		}
-		if best.as_ref().map_or(true, |b| d.len() < b.len()) {
-			best = Some(d);
-			out.expected_done = done.clone();
-		}
+	// the events match on some branch, the ticket instants on none
+	if let Some((d, done)) = cx.best_ticket_mismatch {
+		out.divergences = d;
+		out.expected_done = done;
 	}
-	out.divergences = best.unwrap_or_default();
 	out
 }
 
